@@ -131,6 +131,18 @@ Definition c14_ok (o1 : eobs) (o : eop) (o2 : eobs) : N :=
   | _ => 0
   end.
 
+(** ** C13 at market / environment level: an asset whose trading flag is off (as the script's own
+    switches leave it: [flags] are the model's, before the operation) records no trade, and a market-wide
+    switch by itself changes no book *)
+Definition c13e_ok (flags : list bool) (o1 : eobs) (o : eop) (o2 : eobs) : N :=
+  if negb (all2 (fun (tr : bool) (pr : observation * observation) =>
+                   tr || trades_eqb (ob_trades (fst pr)) (ob_trades (snd pr)))
+                flags (combine (eo_books o1) (eo_books o2))) then 1
+  else match o with
+       | EEnable | EDisable => if all2 obs_eqb (eo_books o1) (eo_books o2) then 0 else 4
+       | _ => 0
+       end.
+
 Definition clock_shared (o : eobs) : N :=
   match eo_books o with
   | b :: r => if forallb (fun b' => ob_t b' =? ob_t b) r then 0 else 3
@@ -347,6 +359,7 @@ Definition es_step_fn (lognormal : N -> N -> option (N * N)) (tanh64 : N -> N)
                   ++ (if es_kind st =? 2 then [] else mk 11 (c11_ok (es_L st) (es_prev st) o o2))
                   ++ (if in_c08 then mk 8 (c08_ok (es_step st) (N.max 1 (es_batch st)) (es_prev st) o o2) else [])
                   ++ mk 14 (c14_ok (es_prev st) o o2) ++ mk 14 (clock_shared o2)
+                  ++ mk 13 (c13e_ok (map b_trading (en_market (es_env st))) (es_prev st) o o2)
                 else [] in
               (mkES (es_kind st) (es_L st) (es_step st) e' g' o2 batch' valid false agents' pos',
                r_out ++ r_obs ++ r_sched ++ r_mon)
